@@ -261,6 +261,7 @@ pub fn run(out: &mut impl Write, seed: u64, cases: usize, _replay: &str, burst: 
                 } else if r.chance(10) {
                     Some((pids[r.below(pids.len() as u64) as usize], id20(0x6f, 200), 1))
                 } else { None };
+                let is_stopped = event == "stopped";
                 let text = announce_json(&hash, &pid, &event, left, &offers, &answer);
                 let line = crate::wsstore::Op::Ann { fam: 4, consumer: 0, slot: ci as u32, allowed: true, now: 0, hash, pid, event, left, offers, answer }.text();
                 if !clients[ci].conn.as_mut().unwrap().send_text(&text, 15000) { clients[ci].conn = None; }
@@ -269,7 +270,8 @@ pub fn run(out: &mut impl Write, seed: u64, cases: usize, _replay: &str, burst: 
                 // socket when it closes turns the close into a reset, which discards the error reply on our side -
                 // just read until the connection ends.
                 let second_pid = announced.get(&(ci, hash)).map(|p| *p != pid).unwrap_or(false);
-                announced.entry((ci, hash)).or_insert(pid);
+                // (the tracker's own record: kept from the first announce, dropped by a `stopped` one)
+                if !second_pid { if is_stopped { announced.remove(&(ci, hash)); } else { announced.entry((ci, hash)).or_insert(pid); } }
                 let mut got = Vec::new();
                 if second_pid {
                     if let Some(conn) = clients[ci].conn.as_mut() {
@@ -278,12 +280,13 @@ pub fn run(out: &mut impl Write, seed: u64, cases: usize, _replay: &str, burst: 
                         loop {
                             match conn.recv_text(Duration::from_millis(50)) {
                                 Ok(Some(t)) => got.push(msg_text(ci, &t)),
-                                Ok(None) => { if t1.elapsed() > patience { crate::net::note_timeout(); break; } }
+                                Ok(None) => { if t1.elapsed() > patience { crate::net::note_timeout(); got.push(format!("?:0.{}:connection-not-closed-after-second-peer-id", ci)); break; } }
                                 Err(_) => break,
                             }
                         }
                     }
                     clients[ci].conn = None;
+                    announced.retain(|(c, _), _| *c != ci);
                     let alive = (0..clients.len()).find(|i| clients[*i].conn.is_some());
                     if let Some(alive) = alive { got.extend(fenced(&mut clients, alive, &hash, 0)); }
                     got.sort();
@@ -299,13 +302,14 @@ pub fn run(out: &mut impl Write, seed: u64, cases: usize, _replay: &str, burst: 
                 }
                 writeln!(out, "{} => {}", line, if got.is_empty() { "-".to_string() } else { got.join(" ") }).unwrap();
             } else if k < 82 {
-                let cnt = 1 + r.below(4) as usize;
+                // (now and then a scrape that names no torrent: it must be answered all the same)
+                let cnt = if r.chance(12) { 0 } else { 1 + r.below(4) as usize };
                 let hs: Vec<[u8; 20]> = (0..cnt).map(|_| if r.chance(85) { hashes[r.below(hashes.len() as u64) as usize] } else { id20(0x78, r.below(3) as u8) }).collect();
                 let req = if hs.len() == 1 && r.chance(50) { format!(r#"{{"action":"scrape","info_hash":{}}}"#, js20(&hs[0])) }
                           else { format!(r#"{{"action":"scrape","info_hash":[{}]}}"#, hs.iter().map(js20).collect::<Vec<_>>().join(",")) };
                 if !clients[ci].conn.as_mut().unwrap().send_text(&req, 15000) { clients[ci].conn = None; }
                 let got = fenced_with(&mut clients, ci, &req, 1);
-                writeln!(out, "wscr 4 0 {} {} => {}", ci, hs.iter().map(|h| hex(h)).collect::<Vec<_>>().join(","), if got.is_empty() { "-".to_string() } else { got.join(" ") }).unwrap();
+                writeln!(out, "wscr 4 0 {} {} => {}", ci, if hs.is_empty() { "-".to_string() } else { hs.iter().map(|h| hex(h)).collect::<Vec<_>>().join(",") }, if got.is_empty() { "-".to_string() } else { got.join(" ") }).unwrap();
             } else if k < 92 {
                 let orderly = r.chance(50);
                 clients[ci].conn.take().unwrap().close(orderly);
